@@ -189,6 +189,40 @@ def _parents(node):
         p = getattr(p, "_parent", None)
 
 
+_MUTATORS = {"append", "extend", "insert", "pop", "remove", "sort", "reverse", "clear", "update", "add", "discard", "setdefault", "popitem"}
+
+
+def no_operand_mutation(ctx, prefixes=("dask/dataframe/dask_expr/", "dask/array/_array_expr/", "dask/_expr.py")):
+    """EFFECT.no-operand-mutation: expressions are immutable, cached singletons.  A local that is bound
+    directly to something reachable from `self` (self.frame.columns, self.operands[1], self.operand("x"))
+    is an alias of shared state; mutating it in place changes other expressions that share the operand.
+    (No such mutation exists in the expression modules today.)"""
+    model = ctx.model
+    n = 0
+    for rel in model.package_files("dask"):
+        if not any(rel.startswith(p_) for p_ in prefixes):
+            continue
+        mod = model.module(rel)
+        for qn, f in mod.functions():
+            bound = {}
+            for a in ast.walk(f):
+                if isinstance(a, ast.Assign) and len(a.targets) == 1 and isinstance(a.targets[0], ast.Name):
+                    v = a.value
+                    base = v
+                    while isinstance(base, (ast.Attribute, ast.Subscript)):
+                        base = base.value
+                    direct = isinstance(v, (ast.Attribute, ast.Subscript)) and isinstance(base, ast.Name) and base.id == "self"
+                    direct = direct or (isinstance(v, ast.Call) and isinstance(v.func, ast.Attribute) and v.func.attr == "operand" and unparse(v.func.value).startswith("self"))
+                    bound.setdefault(a.targets[0].id, []).append(direct)
+            aliases = {nm for nm, ds in bound.items() if ds and all(ds)}
+            n += len(aliases)
+            for c in ast.walk(f):
+                if isinstance(c, ast.Call) and isinstance(c.func, ast.Attribute) and c.func.attr in _MUTATORS and isinstance(c.func.value, ast.Name) and c.func.value.id in aliases:
+                    ctx.ob("EFFECT.no-operand-mutation", c, f"{qn}: `{unparse(c)[:50]}` does not modify shared expression state", False, f"`{c.func.value.id}` is bound directly to state reachable from self and is modified in place: every other expression sharing that operand changes with it")
+    ctx.count("self_alias_locals", n)
+    ctx.floor("self_alias_locals", 50, "locals bound directly to self.<...> in expression classes")
+
+
 def _expr_token(ctx):
     model = ctx.model
     em = model.module("dask/_expr.py")
